@@ -126,6 +126,20 @@ pub fn spec(property: &str, tier: &str) -> Option<CheckSpec> {
 			sp.stub_components = vec!["the remote peer (simulator owns the other end of the socket and the fragmentation)".into(), "p2p::Protocol/Peer (the reader loop mirrors conn::poll: stop at the first error; expect_attachment after TxHashSetArchive)".into()];
 			Some(sp)
 		}
+		"C18" => {
+			let mut sp = s(
+				"dbsim",
+				"exploration",
+				if quick { 16 } else { 64 },
+				"case = (a) 30 (thorough 150) sequential histories of 10-120 top-level batches over three key spaces with put/delete/get/exists/iter inside nested batches (depth <= 3, commit or drop at every level), reads on a fresh read transaction while the batch is open, clean reopen, value sizes up to 20 KB and key spaces of 8/40/300 keys so that the map is enlarged one or more times; the store is compared with a nested-transaction map model after every operation and in full (every key space by iterator, get_ser, exists) after every top-level batch; (b) 30 (thorough 120) seeded schedules of 1-2 writer threads committing versioned groups of six keys per batch (half of them through a child batch, dropped children and dropped batches interleaved) and 1-3 reader/iterator threads on the same store under the baton scheduler, payloads up to 30 KB so that resizes happen while readers are active; oracle: one iterator shows one version per group, never a dropped child's value, never less than what was committed before it started, versions never go back, no operation fails, no deadlock, final contents = last committed; first schedule of each case replayed from its choice list; (c) 6 (thorough 24) batches (puts, deletes, committed and dropped children) killed at every crash point inside Batch::commit (child and top level): the reopened store must equal the pre-batch map (before the top-level commit) or the post-batch map (after it)",
+				vec!["batches stay below 5% of the allocation chunk (1 MiB in test mode), the documented usage limit of the resize policy", "fault model for (c) is process death; the OS keeps written pages"],
+				vec!["child_dropped", "child_committed", "batch_dropped", "map_grew", "outside_read_during_batch", "iter_in_batch", "reopen", "map_resized_under_concurrency", "replay_identical", "reopened_post_batch", "reopened_pre_batch"],
+			);
+			sp.real_components = vec!["grin_store::lmdb Store/Batch/DatabaseIterator (enter_tx, TxCounter, maybe_resize, needs_resize), heed and LMDB itself on tmpfs".into(), "real OS threads under the baton scheduler (hooks H1/H2), forked children for schedules and crash points".into()];
+			sp.stub_components = vec!["chain::store::ChainStore (its batches are exercised by C03/C09/C17; here the wrapper is driven directly)".into()];
+			sp.case_timeout_s = 900;
+			Some(sp)
+		}
 		"C17" => {
 			let mut sp = s(
 				"schedsim",
@@ -979,6 +993,7 @@ pub fn run_case(property: &str, tier: &str, seed: u64, case: u64) -> CaseResult 
 		"C14" => crate::poolsim::case(tier, seed, case),
 		"C16" => crate::pibdsim::case(tier, seed, case),
 		"C17" => crate::schedsim::case(tier, seed, case),
+		"C18" => crate::dbsim::case(tier, seed, case),
 		"C15" => {
 			if case % 3 == 2 {
 				let mut r = crate::txhsim::case(tier, seed, case);
